@@ -147,11 +147,35 @@ def distribute_rule(ctx, R):
     R.check(isinstance(r, Seq) and not r.items, "C04.EARLY", "empty input", where(f), "no labels => no layers", "distribute([]) returns %s" % show(r))
 
 
+def _bind_self_aliases(ev, st, f, before=None):
+    """A partial evaluation that starts in the middle of f: locals that merely name a read of the receiver's state
+    (`opts = self.options`, `w = self.options["stubWidth"]`), assigned once in the part that is skipped, are bound first."""
+    selfn = f.params[0] if f.params else None
+    counts = {}
+    for n in walk_local(f.node):
+        if isinstance(n, ast.Name) and isinstance(n.ctx, ast.Store):
+            counts[n.id] = counts.get(n.id, 0) + 1
+    for n in walk_local(f.node):
+        if before is not None and getattr(n, "lineno", 0) >= before:
+            continue
+        if isinstance(n, ast.Assign) and len(n.targets) == 1 and isinstance(n.targets[0], ast.Name) and counts.get(n.targets[0].id) == 1 and n.targets[0].id not in st.env.vars:
+            v = n.value
+            root = v
+            while isinstance(root, (ast.Attribute, ast.Subscript)):
+                if isinstance(root, ast.Subscript) and not isinstance(root.slice, ast.Constant):
+                    root = None
+                    break
+                root = root.value
+            if isinstance(root, ast.Name) and root.id == selfn and isinstance(v, (ast.Attribute, ast.Subscript)):
+                st.env.vars[n.targets[0].id] = ev.expr(v, st)
+
+
 def _stub_loop_check(ctx, R, f, loop, start_expr_text, start_node_text, tag):
     """loop: `for j in range(start-1, -1, -1): stub = stub.createStub(W); layers[j].append(stub)`."""
     P = ctx.P
     ev, st, s, o = _self_eval(ctx, f, filt=lambda fn: fn.qual != "node.Node.createStub")
     st.env.vars[f.params[0]] = s
+    _bind_self_aliases(ev, st, f, before=loop.lineno)
     START = Num.atom("START")
     st.env.vars[start_expr_text] = START
     it = ev.expr(loop.iter, st)
@@ -258,6 +282,7 @@ def stubchain_instance(ctx, R):
         rets = [n_ for n_ in body if isinstance(n_, ast.Return)]
         lname = rets[-1].value.id if rets and isinstance(rets[-1].value, ast.Name) else "layers"
         st.env.vars[lname] = layers
+        _bind_self_aliases(ev, st, f, before=body[start].lineno)
         r = ev.block(body[start:], st, [])
         final = r.value if r is not None else None
         got = [sorted(key(x) for x in l.items) for l in final.items] if isinstance(final, Seq) and all(isinstance(l, Seq) for l in final.items) else None
